@@ -126,6 +126,10 @@ def merge(dst, d):
     for key in ("faults", "probes", "shapes"):
         for k, v in d[key].items():
             dst[key][k] = dst[key].get(k, 0) + v
+    dst["chunks_complete"] = dst.get("chunks_complete", 0) + (
+        1 if d.get("complete") else 0)
+    dst["chunks_partial"] = dst.get("chunks_partial", 0) + (
+        0 if d.get("complete") or not d["runs"] else 1)
     dst["sigs"].update(d["sigs"])
     dst["nontrivial_sigs"].update(d["nontrivial_sigs"])
     if len(dst["samples"]) < 4:
@@ -184,7 +188,9 @@ def _chunk(args):
     finally:
         gc.enable()
         gc.collect()
-    return a, b, agg.to_dict()
+    d = agg.to_dict()
+    d["complete"] = (agg.runs == b - a)
+    return a, b, d
 
 
 def batch(engine, prop, tier, base, budget_s, procs, max_runs=None,
@@ -320,7 +326,11 @@ def write_evidence(engine, prop, tier, base, total, nviol, extra=None):
         "runs_per_hour": int(runs / wall * 3600),
         "seeds": {"base": base, "derivation":
                   "run_seed = blake2b(base, engine, property, run_index)",
-                  "run_index_range": [0, runs]},
+                  "run_indices": "chunks of consecutive indices from 0; "
+                                 "%d complete chunk(s), %d cut short by the "
+                                 "time budget" % (
+                                     total.get("chunks_complete", 0),
+                                     total.get("chunks_partial", 0))},
         "scheduler_steps": total["steps"],
         "simulated_seconds": round(total["simtime"], 3),
         "faults_fired": dict(sorted(total["faults"].items())),
